@@ -290,7 +290,7 @@ def batch(prop: str, tier: str, verif_seed: int, n_runs: int | None = None,
         print(f"runs={len(recs)} steps={steps} wall={wall:.1f}s "
               f"distinct_digests={len(digests)} shapes={len(shapes)} "
               f"grams={len(grams)} faults={sum(faults.values())} "
-              f"known={dict(known_hit)} det={det}", flush=True)
+              f"known={dict(known_hit)} violating_runs={n_viol_runs} det={det}", flush=True)
         if zero:
             print(f"WARNING probes stuck at zero: {zero}", flush=True)
     if reported:
